@@ -81,6 +81,13 @@ def text_facets(text):
     return utf8, valid, notrail, nonfinite
 
 
+def meta_of(dc):
+    """The creation metadata block, minus the file name that loading from a path records."""
+    m = dict(dc.to_dict().get('creation_metadata') or {})
+    m.pop('tddafile', None)
+    return json.dumps(m, sort_keys=True, default=str)
+
+
 def fields_text(dc):
     return json.dumps(dc.to_dict()['fields'], indent=4, ensure_ascii=False, default=str)
 
@@ -148,9 +155,14 @@ def cycle_check(chk, d, root, tag, rnd, sigbase, witness, cycles=2, df=None):
                 except Exception:
                     pass
             intact = json.dumps(d1, sort_keys=True) == before
-        ev('LoadDict', nfields=len(dc.fields), dictintact=bool(intact), reloadsame=bool(reload_same))
+        given_meta = dict(d.get('creation_metadata') or {})
+        given_meta.pop('tddafile', None)
+        e0 = ev('LoadDict', nfields=len(dc.fields), dictintact=bool(intact), reloadsame=bool(reload_same),
+                samemeta=(not given_meta) or meta_of(dc) == json.dumps(given_meta, sort_keys=True, default=str))
+        if not e0['samemeta']:
+            e0['texts'] = [json.dumps(given_meta, sort_keys=True, default=str)[:400], meta_of(dc)[:400]]
     except Exception as ex:
-        ev('LoadDict', nfields=0, dictintact=True, reloadsame=True, raised='%s: %s' % (type(ex).__name__, str(ex)[:150]))
+        ev('LoadDict', nfields=0, dictintact=True, reloadsame=True, samemeta=True, raised='%s: %s' % (type(ex).__name__, str(ex)[:150]))
         return events
     prev_text = None
     prev_fields = None
@@ -181,11 +193,13 @@ def cycle_check(chk, d, root, tag, rnd, sigbase, witness, cycles=2, df=None):
             with cl.quiet():
                 dc2 = DatasetConstraints(loadpath=p)
             sameobj = fields_text(dc2) == ftext
-            e = ev('LoadPath', cycle=c, sameobj=sameobj, sameverdicts=True)
+            e = ev('LoadPath', cycle=c, sameobj=sameobj, sameverdicts=True, samemeta=meta_of(dc2) == meta_of(dc))
+            if not e['samemeta']:
+                e['texts'] = [meta_of(dc)[:400], meta_of(dc2)[:400]]
             if not sameobj:
                 e['texts'] = [ftext[:400], fields_text(dc2)[:400]]
         except Exception as ex:
-            ev('LoadPath', cycle=c, sameobj=False, sameverdicts=True, raised='%s: %s' % (type(ex).__name__, str(ex)[:150]))
+            ev('LoadPath', cycle=c, sameobj=False, sameverdicts=True, samemeta=True, raised='%s: %s' % (type(ex).__name__, str(ex)[:150]))
             return events
         if base_verdicts is not None:
             try:
